@@ -12,7 +12,7 @@ ASSUMPTIONS = base.ASSUMPTIONS + ['routes are exactly those listed in the statem
                                   'indexing views are exercised on 2-D objects (x[i] is a row view; 1-D integer indexing returns a copy of the element)']
 RULE = ('HEAP lines: random histories (<=14 steps) that create objects, derive new ones by like=, deepcopy, like(), conversion, +, np.add, ~, >> (trunc/keep), row indexing, strided / reversed slicing, column indexing (also of views), and then mutate one (whole write, indexed write, config change, flag-raising write, reset); '
         'after every step the observable state (format, codes, config, flags) of ALL live objects and the real sharing graph (config/status identity, np.shares_memory) are compared with the model. '
-        'INP lines: lists / nested lists / tuples / arrays of numbers and of bin/hex strings are deep-compared before and after construction. BCF lines: every Config field x invalid values through the setter, Fxp kwargs and Config(). '
+        'INP lines: lists / nested lists / tuples / arrays of numbers and of bin/hex strings are deep-compared before and after construction (constructor, call, set_val; from_bin as function and method for unprefixed binary strings). BCF lines: every Config field x invalid values through the setter, Fxp kwargs and Config(). '
         'non-trivial = a history with at least one derivation followed by a mutation')
 TECHNIQUE = 'Lean 4 theorems on a heap model (fresh allocation on every route except index views, no-sharing invariant by induction over histories, frame property of mutations, write-through of views) + differential correspondence of object states and sharing graphs'
 LEVEL_TEXT = ('Machine-checked on the heap model: every derivation route allocates config, status and buffer cells that no live object refers to (views - rows, strided and reversed slices, columns - share only the buffer), the pairwise-disjointness invariant is preserved by every operation along any history, no creating step changes the codes, flags or configuration of an existing object, '
@@ -130,9 +130,20 @@ def exec_INP(t):
         else:
             strs = list(items)
             obj = {'strlist': lambda: list(strs), 'strtuple': lambda: tuple(strs), 'strnested': lambda: [list(strs), list(strs)],
-                   'strarray': lambda: np.array(strs)}[kind]()
+                   'strarray': lambda: np.array(strs), 'binlist': lambda: list(strs), 'binnested': lambda: [list(strs), list(strs)],
+                   'binarray': lambda: np.array(strs)}[kind]()
             kw = dict(signed=True, n_word=16, n_frac=0)
         before = copy.deepcopy(obj)
+        if kind.startswith('bin'):
+            # unprefixed binary strings: the from_bin routes (function and method)
+            x = fxpmath.from_bin(obj, signed=True, n_word=8, n_frac=0)
+            ok1 = deep_eq(obj, before)
+            y = Fxp(None, True, 8, 0) if kind != 'binnested' else Fxp(np.zeros((2, len(strs)), dtype=int), True, 8, 0)
+            y.from_bin(obj)
+            ok2 = deep_eq(obj, before)
+            z = fxpmath.from_bin(obj, signed=False, n_word=8, n_frac=2, raw=True)
+            ok3 = deep_eq(obj, before)
+            return ['1' if (ok1 and ok2 and ok3) else '0']
         x = Fxp(obj, **kw)
         ok1 = deep_eq(obj, before)
         y = Fxp(None, **kw); y(obj)
@@ -280,8 +291,10 @@ def generate(tier, rng):
         yield 'HEAP ' + ' '.join(steps)
     # containers
     for _ in range(150 if tier == 'quick' else 3000):
-        kind = rng.choice(['list', 'tuple', 'nested', 'array', 'array2', 'strlist', 'strtuple', 'strnested', 'strarray'])
-        if kind.startswith('str'):
+        kind = rng.choice(['list', 'tuple', 'nested', 'array', 'array2', 'strlist', 'strtuple', 'strnested', 'strarray', 'binlist', 'binnested', 'binarray'])
+        if kind.startswith('bin'):
+            items = [format(rng.getrandbits(8), '08b') for _ in range(rng.randint(1, 4))]
+        elif kind.startswith('str'):
             items = [rng.choice(['0b', '0x']) for _ in range(rng.randint(1, 4))]
             items = [(p + format(rng.getrandbits(8), '08b')) if p == '0b' else (p + format(rng.getrandbits(8), '02X')) for p in items]
         else:
